@@ -130,6 +130,10 @@ class Engine:
         self.has_int = False
         self.path_unknown = False
         self.tmpdirs = []
+        self.protected = []       # frame conditions (C18): (name, array, saved elements, shape)
+        from . import npf as _npf
+        _npf.PROTECTED.clear()
+        _npf.WRITES.clear()
 
     def _on_axiom(self, ax, at=None):
         if at is None:
@@ -733,8 +737,30 @@ class Engine:
             self.stats["unconfirmed"] += 1
             self.undecided_names.append(name + " (sat, not reproduced)")
 
+    def float_frame_check(self, name, writes):
+        """a protected input array was written to, but its content is unchanged over the reals (e.g. +d, -2d, +d): the
+        frame condition is then a float64 question - the path's model and a few seeded inputs satisfying the harness
+        assumptions are replayed on the real code with a byte comparison of the array; only a reproduced difference is
+        reported (sampling, labelled as such in the evidence)"""
+        self.stats["obligations"] += 1
+        self.stats["float_frame_replays"] = self.stats.get("float_frame_replays", 0) + 1
+        r, m = self.check([], full=True, strict=True, timeout_ms=self.o.get("validate_timeout_ms", 3000))
+        if r != "sat":
+            r, m = self.check([], full=True, timeout_ms=self.o.get("validate_timeout_ms", 3000))
+        before = self.stats["violated"], self.stats["unconfirmed"]
+        self._handle_sat(name, m if r == "sat" else None, "write-monitor")
+        if self.stats["violated"] == before[0]:
+            # not reproduced: the write restores the bytes on every replayed input
+            self.stats["unconfirmed"] = before[1]
+            if self.undecided_names and self.undecided_names[-1].startswith(name):
+                self.undecided_names.pop()
+            self.stats["discharged"] += 1
+            if len(self.samples) < 6:
+                self.samples.append(dict(obligation=name, config=self.config, verdict="unchanged over the reals (normal form); write at "
+                                         + "; ".join(sorted({w[1] for w in writes})[:3]) + " restores identical bytes in every float64 replay"))
+
     def write_replay(self, name, inputs, rep):
-        d = self.o.get("replay_dir") or os.path.join(os.path.dirname(os.path.dirname(os.path.abspath(__file__))), "replays")
+        d = self.o.get("replay_dir") or os.path.join(os.environ.get("VERIF_OUT") or os.path.dirname(os.path.dirname(os.path.abspath(__file__))), "replays")
         os.makedirs(d, exist_ok=True)
         import hashlib
         key = hashlib.sha1(json.dumps([self.prop, self.hname, self.config, name], sort_keys=True, default=str).encode()).hexdigest()[:10]
@@ -761,11 +787,15 @@ class Engine:
         try:
             with np.errstate(all="ignore"):
                 self.fn(ctx, **self.config)
+                if self.o.get("frame"):
+                    ctx.check_unchanged("frame")
         except PathAbort:
             res["exception"] = None
             res["aborted"] = True
         except Exception as e:
-            if blame(e) == "repo":
+            if blame(e) == "repo" and self.o.get("frame"):
+                res["aborted"] = True
+            elif blame(e) == "repo":
                 res["exception"] = f"{type(e).__name__}: {e}"
             else:
                 res["harness_exception"] = f"{type(e).__name__}: {e}"
@@ -793,6 +823,8 @@ class Engine:
         aborted = False
         try:
             self.fn(ctx, **self.config)
+            if self.o.get("frame"):
+                ctx.check_unchanged("frame")
         except PathAbort as e:
             aborted = True
             self.stats["aborted_paths"] += 1
@@ -810,7 +842,10 @@ class Engine:
             aborted = True
         except Exception as e:
             raised_tb = traceback.format_exc(limit=12)
-            if blame(e) == "repo":
+            if blame(e) == "repo" and self.o.get("frame"):
+                aborted = True          # frame mode: an exception of the code under test is the host property's business
+                self.stats["aborted_paths"] += 1
+            elif blame(e) == "repo":
                 raised = e
             else:
                 self.errors.append(dict(kind="harness-exception", config=self.config, msg=repr(e), tb=raised_tb))
@@ -1023,6 +1058,7 @@ class _CtxBase:
     def __init__(self, eng):
         self.eng = eng
         self._tmp = []
+        self.frame = bool(eng.o.get("frame"))
 
     def tmpdir(self):
         d = tempfile.mkdtemp(prefix="symx_")
@@ -1086,7 +1122,10 @@ class SymCtx(_CtxBase):
         a = np.empty(shape, dtype=object)
         for idx in np.ndindex(*shape):
             a[idx] = self.real(name + "[" + ",".join(map(str, idx)) + "]", **kw)
-        return a.view(SArr)
+        a = a.view(SArr)
+        if self.frame:
+            self.protect(f"array {name}", a)
+        return a
 
     def const_array(self, values, dtype=float):
         from .npf import sarr
@@ -1107,6 +1146,8 @@ class SymCtx(_CtxBase):
         return v
 
     def oblige(self, name, cond, then_assume=False, using=None):
+        if self.frame and not name.startswith("frame"):
+            return          # frame mode (C18): the host harness' own obligations belong to its property, not to this run
         self.eng.oblige(name, cond, then_assume, using)
 
     def output(self, name, value):
@@ -1116,6 +1157,44 @@ class SymCtx(_CtxBase):
         if isinstance(x, SR):
             return str(x)
         return repr(x)
+
+    def protect(self, name, arr):
+        """register an input array under the frame condition `unchanged by the calls that follow`"""
+        if not isinstance(arr, np.ndarray):
+            return arr
+        from . import npf
+        if any(a is arr for _, a, _, _ in self.eng.protected):
+            return arr
+        self.eng.protected.append((name, arr, list(arr.flat), arr.shape))
+        npf.PROTECTED.append((name, arr))
+        return arr
+
+    def check_unchanged(self, label="frame"):
+        from . import npf, ops as O
+        for (name, arr, old, shape) in self.eng.protected:
+            oname = f"{label}: input array {name} is unchanged"
+            cur = list(arr.flat)
+            if arr.shape != shape or len(cur) != len(old):
+                self.oblige(oname, False)
+                continue
+            cond = True
+            for a, b in zip(cur, old):
+                if a is b:
+                    continue
+                if isinstance(a, (SR, SC)) or isinstance(b, (SR, SC)):
+                    cond = O.And(cond, O.eq(a, b))
+                else:
+                    try:
+                        same = bool(a == b)
+                    except Exception:
+                        same = False
+                    cond = O.And(cond, same)
+                if cond is False:
+                    break
+            self.oblige(oname, cond)
+            writes = [w for w in npf.WRITES if w[0] == name]
+            if writes and (cond is True or getattr(cond, "structural", False)):
+                self.eng.float_frame_check(oname, writes)
 
     def find_round(self, fn, x):
         return self.eng.find_round(fn, x)
@@ -1154,6 +1233,8 @@ class ConcreteCtx(_CtxBase):
         a = np.zeros(shape, dtype=float)
         for idx in np.ndindex(*shape):
             a[idx] = self.real(name + "[" + ",".join(map(str, idx)) + "]")
+        if self.frame:
+            self.protect(f"array {name}", a)
         return a
 
     def const_array(self, values, dtype=float):
@@ -1168,6 +1249,8 @@ class ConcreteCtx(_CtxBase):
             raise PathAbort("assumption false in concrete replay")
 
     def oblige(self, name, cond, then_assume=False, using=None):
+        if self.frame and not name.startswith("frame"):
+            return
         self.checked += 1
         ok = bool(cond)
         if not ok:
@@ -1180,6 +1263,30 @@ class ConcreteCtx(_CtxBase):
 
     def fmt(self, x):
         return repr(float(x))
+
+    def protect(self, name, arr):
+        if not isinstance(arr, np.ndarray):
+            return arr
+        if not hasattr(self, "protected"):
+            self.protected = []
+        if any(a is arr for _, a, _ in self.protected):
+            return arr
+        self.protected.append((name, arr, arr.copy()))
+        return arr
+
+    def check_unchanged(self, label="frame"):
+        from .ops import Verdict
+        for (name, arr, saved) in getattr(self, "protected", []):
+            same = arr.shape == saved.shape and arr.dtype == saved.dtype and arr.tobytes() == saved.tobytes()
+            why = ""
+            if not same:
+                try:
+                    bad = np.argwhere(~((arr == saved) | ((arr != arr) & (saved != saved))))
+                    i = tuple(bad[0]) if len(bad) else ()
+                    why = f"{name}{list(i)}: {saved[i]!r} -> {arr[i]!r} ({len(bad)} element(s) differ)" if len(bad) else "bytes differ"
+                except Exception:
+                    why = "shape/dtype/bytes differ"
+            self.oblige(f"{label}: input array {name} is unchanged", Verdict(same, why))
 
     def reachable(self):
         return True
